@@ -15,7 +15,7 @@ import (
 	"github.com/irismod/service/types"
 )
 
-const nScripts = 38
+const nScripts = 42
 
 func runScript(a *App, mon *Mon, seed int64, v int) {
 	p := baseParams()
@@ -553,6 +553,68 @@ func runScript(a *App, mon *Mon, seed int64, v int) {
 		answer(b, p2)
 		_ = c
 		blocks(10)
+	case 38:
+		// zero-height restarts while a paid batch is in flight for a context that was paused, and
+		// for one that was killed: the pending fees go back to their consumers all the same
+		a := s.call("svc", all, cons, 100, 4, false, true, 5, 3)
+		b := s.call("svc", []sdk.AccAddress{p1, p2}, s.A.Consumers[1], 100, 4, false, true, 5, 3)
+		s.block()
+		answer(a, p1)
+		s.ctl("pause", a, cons)
+		s.ctl("kill", b, s.A.Consumers[1])
+		s.r.RestartOpt(false)
+		blocks(2)
+		s.ctl("start", a, cons)
+		blocks(6)
+	case 39:
+		// the maximum request timeout lowered while a batch issued under the old value is in
+		// flight; the context is paused and started again inside that batch, and its timeout is
+		// brought under the new maximum by an update before a later start
+		id := s.call("svc", all, cons, 100, 12, false, true, 12, 3)
+		s.block()
+		np := s.p
+		np.MaxRequestTimeout = 4
+		s.r.ChangeParams(np)
+		s.ctl("pause", id, cons)
+		s.ctl("start", id, cons)
+		blocks(3)
+		answer(id, p1)
+		s.ctl("pause", id, cons)
+		blocks(10) // batch 1 expires while paused
+		s.r.Msg(types.NewMsgUpdateRequestContext(unhex(id), nil, nil, 3, 4, 0, cons), "timeout brought under the lowered maximum")
+		s.ctl("start", id, cons)
+		blocks(9)
+	case 40, 41:
+		// restarts with module contexts and self-providing owners: a threshold raised by the
+		// module while a batch is in flight survives the restart; the consumer of a module
+		// context still cannot steer it by messages; every binding is priced by its own text
+		// again, whoever owns it
+		s.r.Msg(types.NewMsgBindService("svc", o2, coins(1000), price("7"), 1, "{}", o2), "an owner providing the service itself")
+		s.r.Msg(types.NewMsgBindService("svc", o1, coins(2000), price("11"), 1, "{}", o1), "")
+		s.bind("svc", s.A.SignProv[3], o2, 2000, price("100"), 1)
+		mid := s.modCreate("svc", all, cons, 100, 3, true, 5, 4, 1)
+		s.block()
+		modUpdate(mid, 3, 0, 0, 0)
+		answer(mid, p1)
+		if v == 41 {
+			blocks(3)
+		}
+		s.r.RestartOpt(v == 41)
+		s.r.Msg(types.NewMsgStartRequestContext(unhex(mid), cons), "consumer of a module context, after the restart")
+		s.r.Msg(types.NewMsgUpdateRequestContext(unhex(mid), nil, coins(5), 0, 0, 0, cons), "consumer of a module context, after the restart")
+		s.r.Msg(types.NewMsgKillRequestContext(unhex(mid), cons), "consumer of a module context, after the restart")
+		s.modCtl("start", mid, cons)
+		id := s.call("svc", []sdk.AccAddress{o2, o1, s.A.SignProv[3], p1, p3}, s.A.Consumers[1], 1000, 2, false, true, 3, 2)
+		id2 := s.call("svc", []sdk.AccAddress{o2, o1}, s.A.Consumers[1], 1000, 2, false, false, 0, 0) // the self-providing owners alone
+		s.block()
+		answer(mid, p2)
+		answer(id, o2, o1, s.A.SignProv[3], p1, p3)
+		answer(id2, o2, o1)
+		blocks(4)
+		answer(mid, p1, p2, p3)
+		s.r.Msg(types.NewMsgWithdrawEarnedFees(o2, nil), "whole-owner withdrawal after a restart")
+		s.r.Msg(types.NewMsgWithdrawEarnedFees(o1, p1), "")
+		blocks(5)
 	}
 	s.done()
 }
